@@ -54,6 +54,8 @@ MC = {
                   "cfg": dec_cfg("TokADV", "FirstADV", q(5, 6), ["TypeOK", "Sound"])},
     "sound_rawcrc": {"module": "MC_Decoder",
                      "cfg": dec_cfg("TokRAWCRC", "FirstRAWCRC", q(9, 10), ["TypeOK", "Sound", "Tiles"])},
+    "boundary_rawcrc": {"module": "MC_Decoder",
+                        "cfg": dec_cfg("TokRAWCRC", "FirstRAWCRC", q(8, 9), ["BoundaryFresh", "IdleStepEq"])},
     "tiles_adv": {"module": "MC_Decoder",
                   "cfg": dec_cfg("TokADV", "FirstADV", q(4, 5), ["TypeOK", "Tiles"])},
     "total_hist": {"module": "MC_Decoder",
@@ -243,7 +245,7 @@ PROPS = {
                        {"cmd": "c17", "judge": "J_ContractC08", "cfg": "JudgeN.cfg"}]),
     "C14": dict(T("for every boundary event (ok, oom, invalid message, invalid escape, finalize, reset) in HIST / HISTFRAME (17 idle histories incl. reset / finalize right after a start sequence, noise, frame) / INFRAME / PADX / history-prefixed ADV streams, corpus and mutations, and capacities "
                   "{growable,0,1,2,5}: events of the continuing decoder vs. a new decoder on the same continuation"),
-                mc={"quick": ["boundary_hist"], "thorough": ["boundary_hist"]},
+                mc={"quick": ["boundary_hist", "boundary_rawcrc"], "thorough": ["boundary_hist", "boundary_rawcrc"]},
                 steps=[{"cmd": "c14", "judge": "J_C14"}]),
     "C15": dict(T("every stream of ADV / INFRAME / PADX / NEARSTART / NOISE, corpus dumps, mutations and three transmissions with 2^16-1 .. 2^16+1 payload bytes through 11-14 front-end configurations (push, decode, decode_streaming, SmlReader x slice/iterator/io::Read x "
                   "Vec / ArrayBuf<N>=|s| / default); records are the grouped observations"),
